@@ -14,6 +14,7 @@
 #include "private/debug.h"
 
 #include <math.h>
+#include <limits.h>
 
 int
 hwloc__xml_verbose(void)
@@ -908,6 +909,18 @@ hwloc__xml_import_object(hwloc_topology_t topology,
 		state->global->msgprefix, obj->os_index);
       goto error_with_object;
     }
+  }
+
+  /* complete sets default to the main sets, the children reordering below needs them */
+  if (obj->cpuset && !obj->complete_cpuset) {
+    obj->complete_cpuset = hwloc_bitmap_dup(obj->cpuset);
+    if (!obj->complete_cpuset)
+      goto error_with_object;
+  }
+  if (obj->nodeset && !obj->complete_nodeset) {
+    obj->complete_nodeset = hwloc_bitmap_dup(obj->nodeset);
+    if (!obj->complete_nodeset)
+      goto error_with_object;
   }
 
   /* check parent vs child sets */
@@ -1849,6 +1862,86 @@ hwloc__xml_import_diff(hwloc__xml_import_state_t state,
  ***********************************/
 
 /* this canNOT be the first XML call */
+/* The core trusts the sets and indexes given by XML and cannot fix everything up later.
+ * Verify what hwloc_topology_check() requires from them, hwloc never generates such XML but users may.
+ * Return the reason why the object is invalid, or NULL.
+ */
+static const char *
+hwloc__xml_verify_object(hwloc_obj_t obj, hwloc_bitmap_t gp_indexes)
+{
+  hwloc_obj_t child, other;
+  const char *reason;
+
+  if (obj->gp_index < (hwloc_uint64_t) INT_MAX) {
+    if (hwloc_bitmap_isset(gp_indexes, (unsigned) obj->gp_index))
+      return "duplicate gp_index";
+    hwloc_bitmap_set(gp_indexes, (unsigned) obj->gp_index);
+  }
+
+  if (obj->cpuset) {
+    /* normal or memory object, all sets exist */
+    if (!hwloc_bitmap_isincluded(obj->cpuset, obj->complete_cpuset))
+      return "cpuset not included in complete_cpuset";
+    if (!hwloc_bitmap_isincluded(obj->nodeset, obj->complete_nodeset))
+      return "nodeset not included in complete_nodeset";
+    if (obj->type == HWLOC_OBJ_PU
+	&& (hwloc_bitmap_weight(obj->complete_cpuset) != 1 || obj->memory_first_child))
+      return "PU with invalid complete_cpuset or memory child";
+    if (obj->type == HWLOC_OBJ_NUMANODE
+	&& (hwloc_bitmap_weight(obj->complete_nodeset) != 1 || obj->memory_first_child))
+      return "NUMA node with invalid complete_nodeset or memory child";
+
+    if (!obj->first_child && hwloc__obj_type_is_normal(obj->type) && obj->type != HWLOC_OBJ_PU
+	&& !hwloc_bitmap_iszero(obj->cpuset))
+      return "normal object with a cpuset but without PU below";
+
+    if (obj->first_child) {
+      /* the cpuset is the exclusive union of the normal children */
+      hwloc_bitmap_t set = hwloc_bitmap_alloc();
+      int ok = set != NULL;
+      for(child = obj->first_child; child && ok; child = child->next_sibling) {
+	if (hwloc_bitmap_intersects(set, child->cpuset))
+	  ok = 0;
+	else if (hwloc_bitmap_or(set, set, child->cpuset) < 0)
+	  ok = 0;
+      }
+      if (ok && !hwloc_bitmap_isequal(set, obj->cpuset))
+	ok = 0;
+      hwloc_bitmap_free(set);
+      if (!ok)
+	return "cpuset is not the exclusive union of children cpusets";
+    }
+
+    /* memory children do not share NUMA nodes */
+    for(child = obj->memory_first_child; child; child = child->next_sibling)
+      for(other = child->next_sibling; other; other = other->next_sibling)
+	if (hwloc_bitmap_intersects(child->complete_nodeset, other->complete_nodeset))
+	  return "memory children with intersecting nodesets";
+  }
+
+  for(child = obj->first_child; child; child = child->next_sibling) {
+    if (!hwloc_bitmap_isincluded(child->complete_cpuset, obj->complete_cpuset)
+	|| !hwloc_bitmap_isincluded(child->complete_nodeset, obj->complete_nodeset))
+      return "complete sets not included in parent complete sets";
+    if ((reason = hwloc__xml_verify_object(child, gp_indexes)) != NULL)
+      return reason;
+  }
+  for(child = obj->memory_first_child; child; child = child->next_sibling) {
+    if (!hwloc_bitmap_isincluded(child->complete_cpuset, obj->complete_cpuset)
+	|| !hwloc_bitmap_isincluded(child->complete_nodeset, obj->complete_nodeset))
+      return "complete sets not included in parent complete sets";
+    if ((reason = hwloc__xml_verify_object(child, gp_indexes)) != NULL)
+      return reason;
+  }
+  for(child = obj->io_first_child; child; child = child->next_sibling)
+    if ((reason = hwloc__xml_verify_object(child, gp_indexes)) != NULL)
+      return reason;
+  for(child = obj->misc_first_child; child; child = child->next_sibling)
+    if ((reason = hwloc__xml_verify_object(child, gp_indexes)) != NULL)
+      return reason;
+  return NULL;
+}
+
 static int
 hwloc_look_xml(struct hwloc_backend *backend, struct hwloc_disc_status *dstatus)
 {
@@ -1967,17 +2060,6 @@ done:
     goto err;
   }
 
-  /* FIXME:
-   * We should check that the existing object sets are consistent:
-   * no intersection between objects of a same level,
-   * object sets included in parent sets.
-   * hwloc never generated such buggy XML, but users could create one.
-   *
-   * We want to add these checks to the existing core code that
-   * adds missing sets and propagates parent/children sets
-   * (in case another backend ever generates buggy object sets as well).
-   */
-
     /* v2 must have non-empty nodesets since at least one NUMA node is required */
     if (!root->nodeset) {
       if (hwloc__xml_verbose())
@@ -1991,6 +2073,27 @@ done:
 		data->msgprefix);
       goto err;
     }
+
+  /* check that the existing object sets and indexes are consistent */
+  if (root->type != HWLOC_OBJ_MACHINE) {
+    if (hwloc__xml_verbose())
+      fprintf(stderr, "%s: invalid root object type %s\n",
+	      data->msgprefix, hwloc_obj_type_string(root->type));
+    goto err;
+  } else {
+    hwloc_bitmap_t gp_indexes = hwloc_bitmap_alloc();
+    const char *reason = gp_indexes ? hwloc__xml_verify_object(root, gp_indexes) : "out of memory";
+    hwloc_bitmap_free(gp_indexes);
+    if (reason) {
+      if (hwloc__xml_verbose())
+	fprintf(stderr, "%s: invalid object sets or indexes: %s\n",
+		data->msgprefix, reason);
+      goto err;
+    }
+  }
+  /* allowed sets cannot be larger than the topology */
+  hwloc_bitmap_and(topology->allowed_cpuset, topology->allowed_cpuset, root->cpuset);
+  hwloc_bitmap_and(topology->allowed_nodeset, topology->allowed_nodeset, root->nodeset);
 
   /* allocate default cpusets and nodesets if missing, the core will restrict them */
   hwloc_alloc_root_sets(root);
